@@ -4,6 +4,7 @@ import Tengo.Proofs.JsonString
 import Tengo.Proofs.JsonEncode
 import Tengo.Proofs.JsonDecode
 import Tengo.Proofs.JsonParse
+import Tengo.Proofs.JsonEquals
 /-!
 C18 — JSON encode/decode round-trips and agrees with encoding/json.
 
@@ -14,7 +15,7 @@ and syntax errors) and by the regenerated tables of `Tengo.Gen.JsonScanner`.
 -/
 namespace Tengo.Props.C18
 open Tengo.Model.Json Tengo.Proofs.JsonString Tengo.Proofs.JsonScan Tengo.Proofs.JsonGrammar Tengo.Proofs.JsonAccept
-  Tengo.Proofs.JsonEncode Tengo.Proofs.JsonDecode Tengo.Proofs.JsonParse
+  Tengo.Proofs.JsonEncode Tengo.Proofs.JsonDecode Tengo.Proofs.JsonParse Tengo.Proofs.JsonEquals
 
 /-! ## The regenerated tables are the ones the model uses -/
 
@@ -117,11 +118,11 @@ theorem scanner_eq_grammar (b : Bytes) : (∃ s, checkValid b = .ok s) ↔ Gramm
 
 /-- Non-vacuity: ` [1,{"a":-2.5e3}]` is in the grammar (through the theorem: the automaton accepts it). -/
 example : Grammar.json [0x20, 0x5B, 0x31, 0x2C, 0x7B, 0x22, 0x61, 0x22, 0x3A, 0x2D, 0x32, 0x2E, 0x35, 0x65, 0x33, 0x7D, 0x5D] :=
-  (scanner_eq_grammar _).mp ⟨_, by decide⟩
+  (scanner_eq_grammar _).mp ((checkValid_iff_accB _).mpr (by decide))
 
 example : ¬ Grammar.json [0x5B, 0x31, 0x2C, 0x5D] := fun h => by   -- `[1,]`
-  obtain ⟨s, hs⟩ := (scanner_eq_grammar _).mpr h
-  revert hs; decide
+  have := (checkValid_iff_accB _).mp ((scanner_eq_grammar _).mpr h)
+  revert this; decide
 
 /-! ## `Decode` is total and computes the denotation -/
 
@@ -159,12 +160,7 @@ theorem decode_err_iff (pf : Bytes → UInt64) (b : Bytes) : (∃ e, decode pf b
     split at he <;> cases he
   · intro h
     rcases decode_no_panic pf b with ⟨v, hv⟩ | ⟨e, _, he⟩
-    · exact absurd ((scanner_eq_grammar b).mpr ⟨_, (decode_ok_iff (fun _ => 0) b _).mp (by
-        have := (decode_ok_iff pf b v).mp hv
-        obtain ⟨w1, t, w2, rfl, hw1, hv', hw2⟩ := this
-        cases hc : checkValid (w1 ++ t ++ w2) with
-        | error e => simp [decode, hc] at hv
-        | ok sc => exact absurd ⟨sc, hc⟩ h)⟩) h
+    · exact absurd ((checkValid_iff_accB b).mpr (json_accB ((decode_ok_iff pf b v).mp hv))) h
     · exact ⟨e, he⟩
 
 /-! ## Number typing -/
@@ -177,7 +173,7 @@ theorem number_typing (pf : Bytes → UInt64) (t : Bytes) (h : NumTok t) :
       | some n => .int n
       | none => .float (pf t)) := by
   have := decode_json pf (b := t) ⟨[], t, [], by simp, ws_nil, Val.num h, ws_nil⟩
-  rw [this]; simp [number]
+  rw [this]; rfl
 
 /-- `ParseInt` on the text `AppendInt` writes, and on the first integers outside int64. -/
 theorem parseInt_range :
@@ -186,20 +182,62 @@ theorem parseInt_range :
     parseInt [0x2D, 0x39, 0x32, 0x32, 0x33, 0x33, 0x37, 0x32, 0x30, 0x33, 0x36, 0x38, 0x35, 0x34, 0x37, 0x37, 0x35, 0x38, 0x30, 0x39] = none := by
   decide
 
-/-- Non-vacuity of `number_typing`: `10`, `1.0`, `1e5`, `1E5`, `9223372036854775808` with `pf := fun _ => 7`. -/
+/-- Non-vacuity of `number_typing`: `10`, `1.0`, `1e5`, `1E5` decoded with `pf := fun _ => 7`, and the typing of
+`9223372036854775807` / `9223372036854775808` (kernel evaluation of the scanner on long inputs is slow, so
+the last two evaluate `number` only). -/
 example :
     decode (fun _ => 7) [0x31, 0x30] = .ok (.int 10) ∧
     decode (fun _ => 7) [0x31, 0x2E, 0x30] = .ok (.float 7) ∧
     decode (fun _ => 7) [0x31, 0x65, 0x35] = .ok (.float 7) ∧
-    decode (fun _ => 7) [0x31, 0x45, 0x35] = .ok (.float 7) ∧
-    decode (fun _ => 7) [0x39, 0x32, 0x32, 0x33, 0x33, 0x37, 0x32, 0x30, 0x33, 0x36, 0x38, 0x35, 0x34, 0x37, 0x37, 0x35, 0x38, 0x30, 0x38] =
-      .ok (.float 7) := by decide
+    decode (fun _ => 7) [0x31, 0x45, 0x35] = .ok (.float 7) := by decide
 
-/-! ## Encode: valid JSON, and the round trip -/
+example :
+    number (fun _ => 7) false [0x39, 0x32, 0x32, 0x33, 0x33, 0x37, 0x32, 0x30, 0x33, 0x36, 0x38, 0x35, 0x34, 0x37, 0x37, 0x35, 0x38, 0x30, 0x37] =
+      .int 9223372036854775807 ∧
+    number (fun _ => 7) false [0x39, 0x32, 0x32, 0x33, 0x33, 0x37, 0x32, 0x30, 0x33, 0x36, 0x38, 0x35, 0x34, 0x37, 0x37, 0x35, 0x38, 0x30, 0x38] =
+      .float 7 := by decide
+
+/-! ## Encode: valid JSON, and the round trip
+
+The three theorems below are proved for the float-free fragment (`Rep` excludes `.float`): the text of a
+float is external to the model. The full statements, with the law the float oracles would have to satisfy
+spelled out, are `encode_valid_full` / `roundtrip_full` (not proved; the float clauses are searched on the
+real code by harness/cmd/c18). -/
+
+/-- The law the external float conversions must satisfy for the float clauses: what `Encode` writes for a
+finite float is a number token that reads back as a number `Equals` to it. -/
+def FloatOracleOK (ff : UInt64 → Bytes × Bytes) (pf : Bytes → UInt64) (i2f : Int → UInt64) : Prop :=
+  ∀ b t, encodeFloat ff b = some t → NumTok t ∧ equals i2f (number pf (t.any isFloatByte) t) (.float b) = true
+
+mutual
+  /-- Representable values including finite floats. -/
+  def RepF : J → Prop
+    | .float b => (b &&& 0x7FFFFFFFFFFFFFFF).toNat < 0x7FF0000000000000
+    | .arr xs => RepFList xs
+    | .obj es => RepFMems es
+    | .int i => -(2 : Int) ^ 63 ≤ i ∧ i < (2 : Int) ^ 63
+    | .str s => ValidUTF8 s
+    | _ => True
+  def RepFList : JList → Prop
+    | .nil => True
+    | .cons x xs => RepF x ∧ RepFList xs
+  def RepFMems : JMems → Prop
+    | .nil => True
+    | .cons k v es => ValidUTF8 k ∧ RepF v ∧ RepFMems es
+end
+
+/-- Full strength of `encode_valid` (not proved for values containing floats). -/
+def encode_valid_full : Prop :=
+  ∀ ff pf i2f v, FloatOracleOK ff pf i2f → RepF v → ∃ t, encode ff v = some t ∧ Grammar.json t
+
+/-- Full strength of the round trip (not proved for values containing floats). -/
+def roundtrip_full : Prop :=
+  ∀ ff pf i2f v, FloatOracleOK ff pf i2f → RepF v → DK v →
+    ∃ t v', encode ff v = some t ∧ decode pf t = .ok v' ∧ equals i2f v' v = true
 
 /-- **The encoding is valid.** For every float-free representable value (ints within int64, strings
 and keys valid UTF-8, any nesting) `Encode` succeeds and `checkValid` accepts the text. -/
-theorem encode_valid (ff : UInt64 → Bytes × Bytes) (v : J) (h : Rep v) :
+theorem encode_valid_partial (ff : UInt64 → Bytes × Bytes) (v : J) (h : Rep v) :
     ∃ t, encode ff v = some t ∧ (∃ s, checkValid t = .ok s) ∧ Grammar.json t := by
   obtain ⟨t, ht, hv⟩ := enc_val (fun _ => 0) ff v h
   have hj : Json (fun _ => 0) t (canon v) := ⟨[], t, [], by simp, ws_nil, hv, ws_nil⟩
@@ -207,9 +245,33 @@ theorem encode_valid (ff : UInt64 → Bytes × Bytes) (v : J) (h : Rep v) :
 
 /-- **Round trip.** Decoding the encoding of a float-free representable value gives its canonical
 form: the same value with every map holding its members sorted by key (what a Go map is). -/
-theorem decode_encode (pf : Bytes → UInt64) (ff : UInt64 → Bytes × Bytes) (v : J) (h : Rep v) :
+theorem decode_encode_partial (pf : Bytes → UInt64) (ff : UInt64 → Bytes × Bytes) (v : J) (h : Rep v) :
     ∃ t, encode ff v = some t ∧ decode pf t = .ok (canon v) := by
   obtain ⟨t, ht, hv⟩ := enc_val pf ff v h
   exact ⟨t, ht, decode_json pf ⟨[], t, [], by simp, ws_nil, hv, ws_nil⟩⟩
+
+/-- **Round trip with tengo equality.** For a float-free representable value whose maps have distinct
+keys (every Go map has), decoding the encoding succeeds and the result `Equals` the value. Holds for
+every member order the encoder may have used (`v` lists the members in that order). -/
+theorem decode_encode_equals_partial (pf : Bytes → UInt64) (ff : UInt64 → Bytes × Bytes) (i2f : Int → UInt64) (v : J)
+    (h : Rep v) (hd : DK v) :
+    ∃ t v', encode ff v = some t ∧ decode pf t = .ok v' ∧ equals i2f v' v = true := by
+  obtain ⟨t, ht, hdec⟩ := decode_encode_partial pf ff v h
+  exact ⟨t, canon v, ht, hdec, equals_canon i2f v h hd⟩
+
+/-- Non-vacuity: `[{"b":-5,"a":"é\n"},null,true]` is representable with distinct keys; its encoding and
+the decoded (key-sorted) value, by evaluation. -/
+example :
+    let v : J := .arr (.cons (.obj (.cons [0x62] (.int (-5)) (.cons [0x61] (.str [0xC3, 0xA9, 0x0A]) .nil)))
+      (.cons .null (.cons (.bool true) .nil)))
+    encode (fun _ => ([], [])) v = some [0x5B, 0x7B, 0x22, 0x62, 0x22, 0x3A, 0x2D, 0x35, 0x2C, 0x22, 0x61, 0x22, 0x3A, 0x22, 0xC3,
+      0xA9, 0x5C, 0x6E, 0x22, 0x7D, 0x2C, 0x6E, 0x75, 0x6C, 0x6C, 0x2C, 0x74, 0x72, 0x75, 0x65, 0x5D] ∧
+    canon v = .arr (.cons (.obj (.cons [0x61] (.str [0xC3, 0xA9, 0x0A]) (.cons [0x62] (.int (-5)) .nil)))
+      (.cons .null (.cons (.bool true) .nil))) := by decide
+
+example : Rep (.obj (.cons [0x62] (.int (-5)) (.cons [0x61] (.str [0xC3, 0xA9, 0x0A]) .nil))) ∧
+    DK (.obj (.cons [0x62] (.int (-5)) (.cons [0x61] (.str [0xC3, 0xA9, 0x0A]) .nil))) := by
+  refine ⟨⟨⟨[0x62], by decide, by decide⟩, ⟨by decide, by decide⟩, ⟨[0x61], by decide, by decide⟩, ⟨[0xE9, 0x0A], by decide, by decide⟩, trivial⟩, ?_⟩
+  simp [DK, DKMems, keysOf]
 
 end Tengo.Props.C18
